@@ -129,8 +129,9 @@ def run(ctx):
     ctx.exhaustive["all 326 duplicate-free orderings of subsets of the five standard fields"] = True
     ctx.sample(dict(op="TypedData", document=docs[40]))
 
-    # no EIP712Domain type at all / not an array
-    for d, cls in ((doc_of([], with_domain_type=False), "missing-domain-type"),):
+    # no EIP712Domain type at all, whatever the domain object holds (nothing, standard keys, all five)
+    missing = [(doc_of(ms, with_domain_type=False), "missing-domain-type") for ms in ([], [STD[0]], [STD[0], STD[1]], [STD[2]], list(STD), [STD[0], ("extra", "string")])]
+    for d, cls in missing:
         r = ctx.harness([("typeddata", d)])[0]
         ctx.count(cls)
         if r.tag != "err":
@@ -152,9 +153,10 @@ def run(ctx):
         d = doc_of(ms, primary=pr).encode()
         for args in (["hash", "typeddata", "-"], ["hash", "typeddata", "--message-hash", "-"], ["hash", "typeddata", "-m", "-"], ["sign", "--mnemonic", phrase, "typeddata", "-"]):
             cr.append(dict(args=args, stdin=d, ms=ms, pr=pr))
-    d = doc_of([], with_domain_type=False).encode()
-    for args in (["hash", "typeddata", "-"], ["hash", "typeddata", "-m", "-"], ["sign", "--mnemonic", phrase, "typeddata", "-"]):
-        cr.append(dict(args=args, stdin=d, ms=None))
+    for ms_ in ([], [STD[0]], list(STD)):
+        d = doc_of(ms_, with_domain_type=False).encode()
+        for args in (["hash", "typeddata", "-"], ["hash", "typeddata", "-m", "-"], ["sign", "--mnemonic", phrase, "typeddata", "-"]):
+            cr.append(dict(args=args, stdin=d, ms=None))
     for rn, r in zip(cr, ctx.cli(cr)):
         ctx.count("cli/malformed-domain")
         ctx.distinct(("clidom", tuple(rn["args"]), str(rn["ms"]), rn.get("pr")))
